@@ -18,7 +18,7 @@ def main():
     chk.build()
     rng = random.Random(chk.seed)
     quick = chk.tier == "quick"
-    cases = codec.gen_schemas(chk.tier, chk.seed, want_random=200 if quick else 3000, k=2)
+    cases = codec.gen_schemas(chk.tier, chk.seed, want_random=200 if quick else 800, k=2)
     if quick:
         cases = [c for i, c in enumerate(cases) if c[0] != "exhaustive" or i % 5 == 0]
     # messages with a greedy tail (unlimited roots) are judged by a second oracle (Coq side, cpp_swap_unl_case): only
